@@ -273,7 +273,7 @@ theorem relex_step_keep (hhead : HeadOk env.tbl L = true) (hrel : RelexOk env.tb
   simp only [Option.some.injEq] at hl0
   subst hl0
   -- the arm
-  simp only [absStep, selArm, hsd'] at hs''
+  simp only [headStep, selArm, hsd'] at hs''
   cases harm : findArm env.tbl c0 (some b) sd'.arms with
   | none => simp [harm] at hs''
   | some arm =>
